@@ -13,7 +13,7 @@ from .model import Src, g_char, g_text
 from .refs import DIALECTS
 
 SOUP_ALPHABET = ["|", "\\", "n", "@", "#", ":", '"', "`", "<", ">", " ", "\t", "\r", "\n", "\n", "a", "*", "-", "{", "}", "%", "'", "$", "(", ")", "[", "]"]
-DECOYS = ["#language: en-", "# language: _fr", "#language: pt--BR", "@ smoke", "@a @\tb", "@ a b", "@a@ b", "# language: es-419", "#language: fr2", "# language: [fr]", "#language:en^", "# language: `en`", "# language: français", "#language: en_au", "#language: en-au",
+DECOYS = ["@wip\u3000# memo", "@a\xa0#c", "@a\t# c", " @a\u2003#x @b", "@a\x0b#c", "@a #", "@a\t#", "* * *", "* *", "- - -", "#language: en-", "# language: _fr", "#language: pt--BR", "@ smoke", "@a @\tb", "@ a b", "@a@ b", "# language: es-419", "#language: fr2", "# language: [fr]", "#language:en^", "# language: `en`", "# language: français", "#language: en_au", "#language: en-au",
           "{\"json\": {\"a\": 1}}", "Given {int} cukes", "{0} {name} {", "} %s %d %(k)s", "100% done", "it's", "@a b", "@", "@t #c", "#language: xx", "# language: fr", "#language:en", "| a |", "| a | b |", "|", "| \\", "| \\| | \\n |", '"""', "```",
           '"""json', "``` x", "Examples:", "Scenario: s", "Scenario Outline: <a>", "Feature: f", "Rule: r", "Background:", "Given x", "And <a>", "* y",
           "When ", "Then <b> z", "", "  ", "text", "\t", "\r", "<a>", "|(|", "| a(b | $1 |", "Given <a(b> <$1> <[>", "@x #c", " ", "\x0b", "\x1c", "\x85",
